@@ -26,6 +26,23 @@ type step struct {
 	Dst  string `json:"dst,omitempty"` // out: remote; in: external address ("@i" = external of the i-th mapping ever created)
 	Adv  int64  `json:"adv,omitempty"` // adv: nanoseconds
 	Size int    `json:"size,omitempty"`
+	// Form: byte form of the IPv4 addresses in the chunk handed to the NAT. bit 0: source as 4-byte net.IP (else 16-byte),
+	// bit 1: destination as 4-byte net.IP. The same address must mean the same endpoint in either form.
+	Form int `json:"form,omitempty"`
+}
+
+func formed(a *net.UDPAddr, four bool) *net.UDPAddr {
+	if a == nil {
+		return a
+	}
+	if four {
+		if v := a.IP.To4(); v != nil {
+			a.IP = v
+		}
+	} else if v := a.IP.To16(); v != nil {
+		a.IP = v
+	}
+	return a
 }
 
 type ncase struct {
@@ -137,6 +154,10 @@ func runCase1(c *ncase, r *res.Result) *verdict {
 		case "out":
 			src, _ := net.ResolveUDPAddr("udp", st.Src)
 			dst, _ := net.ResolveUDPAddr("udp", st.Dst)
+			src, dst = formed(src, st.Form&1 != 0), formed(dst, st.Form&2 != 0)
+			if st.Form != 0 {
+				r.Count("chunks_with_4byte_addresses", 1)
+			}
 			pl := vn.Payload(uint64(i+1), st.Size)
 			in := vnet.VerifNewChunkUDP(src, dst, pl)
 			out, err := nat.Out(in)
@@ -251,6 +272,10 @@ func runCase1(c *ncase, r *res.Result) *verdict {
 				}
 			}
 			ext, _ := net.ResolveUDPAddr("udp", extS)
+			rem, ext = formed(rem, st.Form&1 != 0), formed(ext, st.Form&2 != 0)
+			if rem == nil || ext == nil {
+				continue
+			}
 			pl := vn.Payload(uint64(i+1), st.Size)
 			in := vnet.VerifNewChunkUDP(rem, ext, pl)
 			out, err := nat.In(in)
@@ -358,6 +383,7 @@ func genCase(rng *rand.Rand, exhaust int) *ncase {
 		rems = append(rems, fmt.Sprintf("5.6.7.%d:%d", 1+i%3, 80+i/3))
 	}
 	strangers := []string{"9.9.9.9:99", "5.6.7.1:9999", "5.6.7.2:81"}
+	alike := false
 	advs := func() int64 {
 		switch rng.Intn(8) {
 		case 0:
@@ -416,7 +442,43 @@ func genCase(rng *rand.Rand, exhaust int) *ncase {
 		}
 		return c
 	}
+	// a third of the NAPT cases: addresses whose text is a prefix of another one (5.6.7.1 / 5.6.7.10 / 5.6.7.100, ports 8 /
+	// 80 / 800) on both sides, and in every case a share of the chunks carries its IPv4 addresses in 4-byte form
+	if c.Mode == 0 && rng.Intn(3) == 0 {
+		alike = true
+		ips := []string{"5.6.7.1", "5.6.7.10", "5.6.7.100", "5.6.7.11"}
+		ports := []int{8, 80, 800, 8000}
+		rems = rems[:0]
+		for i := 0; i < nRem; i++ {
+			rems = append(rems, fmt.Sprintf("%s:%d", ips[rng.Intn(len(ips))], ports[rng.Intn(len(ports))]))
+		}
+		strangers = []string{"5.6.7.1:8", "5.6.7.10:80", "5.6.7.1:800", "5.6.7.100:8000", "5.6.7.11:80", "5.6.7.1:80", "5.6.7.10:8"}
+		ints = ints[:0]
+		for i := 0; i < nInt; i++ {
+			ints = append(ints, fmt.Sprintf("192.168.0.%d:%d", []int{1, 10, 100, 11}[i%4], []int{5, 50, 500, 5000}[(i/2)%4]))
+		}
+	}
+	_ = alike
+	forms := rng.Intn(3) // 0: all 16-byte (what ResolveUDPAddr yields), 1: mixed per chunk, 2: mostly 4-byte
+	form := func() int {
+		switch forms {
+		case 1:
+			return rng.Intn(4)
+		case 2:
+			if rng.Intn(8) != 0 {
+				return 3
+			}
+		}
+		return 0
+	}
 	n := 50 + rng.Intn(350)
+	defer func() {
+		for i := range c.Steps {
+			if c.Steps[i].K != "adv" {
+				c.Steps[i].Form = form()
+			}
+		}
+	}()
 	for i := 0; i < n; i++ {
 		switch k := rng.Intn(100); {
 		case k < 45:
